@@ -37,7 +37,7 @@ inductive NameChange (s : State) (n : Name) (d : DymName) : Op → DymName → P
       NameChange s n d (.setController d.owner n c) { d with controller := c }
   /-- address records: only the controller, only while unexpired; nothing else changes -/
   | updateResolve (ch : Chain) (e : Bool) (p : Path) (v : Option Addr) (cfgs : List Config) : d.expired s.now = false →
-      ((∃ x, cfgs = upsertConfig d.configs ⟨ch, p, x⟩) ∨ cfgs = removeConfig d.configs ch p) →
+      ((∃ x, cfgs = upsertConfig d.configs ⟨ch, p, x⟩ ∧ (ch = 0 → x.hrp = 0)) ∨ cfgs = removeConfig d.configs ch p) →
       NameChange s n d (.updateResolve d.controller n ch e p v) { d with configs := cfgs }
   | updateDetails (c : ContactArg) (cl : Bool) (cfgs : List Config) (contact : Nat) : d.expired s.now = false →
       (cfgs = [] ∨ cfgs = d.configs) →
@@ -237,7 +237,7 @@ theorem updateResolve_change {a m ch e p v} (h : updateResolveAddress s a m ch e
       rename (getName s n = some _) => hd0
       rw [hd] at hd0; injection hd0 with hd0; subst hd0
       rename (d.controller = a) => ho; subst ho
-      exact ⟨_, if_pos rfl, Or.inr (NameChange.updateResolve ch e p _ _ (by assumption) (by first | exact Or.inl ⟨_, rfl⟩ | exact Or.inr rfl))⟩
+      exact ⟨_, if_pos rfl, Or.inr (NameChange.updateResolve ch e p _ _ (by assumption) (by first | exact Or.inl ⟨_, rfl, fun h0 => by first | assumption | exact absurd h0 ‹¬ ch = 0›⟩ | exact Or.inr rfl))⟩
     · exact ⟨d, by simp [hnm]; exact hd, Or.inl rfl⟩
 
 theorem updateDetails_change {a m c cl} (h : updateDetails s a m c cl = .ok s') (hd : getName s n = some d) :
